@@ -35,7 +35,7 @@ import traffic_weaver.datasets._base as base  # noqa: E402
 FOLDER = "verif-cache"
 ERRORS = ("URLError", "TimeoutError")
 GATE_ACTION = {"start": "Stat", "mkdir": "Mkdir", "dl": "DlBegin", "dlmid": "DlEnd", "retry": "Retry",
-               "verify": "Verify", "parse": "Parse", "dump": "DumpBegin", "dumpmid": "DumpEnd", "rename": "Rename",
+               "verify": "Verify", "parse": "Parse", "dump": "DumpBegin", "dumpmid": "DumpEnd", "dumpclose": "DumpClose", "rename": "Rename",
                "cleanup": "Cleanup", "read": "Read", "ret": "Return"}
 
 
@@ -154,10 +154,46 @@ def install_gates(ch, payload_of_url):
         ch.gate("rename")
         return os.replace(*a, **kw)
 
+    class GatedWriter:
+        """The file object handed to the loader for a write: closing it - explicitly, by leaving a with-block or
+        by dropping the last reference - is a step boundary ("dumpclose"), because only the close puts the buffered
+        tail of the pickle on the disk.  A SIGKILL at that boundary leaves what really is on the disk."""
+
+        def __init__(self, f):
+            self.__dict__["_f"] = f
+            self.__dict__["_gated"] = False
+
+        def __getattr__(self, k):
+            return getattr(self._f, k)
+
+        def close(self):
+            if not self._gated:
+                self.__dict__["_gated"] = True
+                if not self._f.closed:
+                    ch.gate("dumpclose")
+            return self._f.close()
+
+        def __enter__(self):
+            return self
+
+        def __exit__(self, *exc):
+            self.close()
+            return False
+
+        def __del__(self):
+            try:
+                self.close()
+            except Exception:  # noqa
+                pass
+
+        def __iter__(self):
+            return iter(self._f)
+
     def gopen(file, mode="r", *a, **kw):
         if isinstance(file, (str, bytes, os.PathLike)):
             if any(c in mode for c in "wax+"):
                 ch.gate("dump")
+                return GatedWriter(real_open(file, mode, *a, **kw))
             elif not quiet[0]:                     # (the checksum routine reads the download: not a boundary)
                 ch.gate("read")
         return real_open(file, mode, *a, **kw)
